@@ -382,9 +382,13 @@ func RandomFill(v reflect.Value, r *rand.Rand, depth int) {
 	case reflect.String:
 		v.SetString(trickyStrings[r.Intn(len(trickyStrings))])
 	case reflect.Slice:
-		n := r.Intn(3)
+		n := r.Intn(4) - 1 // -1: leave the slice nil (the zero value a handler that never appended returns)
 		if depth > 3 {
 			n = 0
+		}
+		if n < 0 {
+			v.Set(reflect.Zero(t))
+			return
 		}
 		s := reflect.MakeSlice(t, n, n)
 		for i := 0; i < n; i++ {
@@ -392,9 +396,13 @@ func RandomFill(v reflect.Value, r *rand.Rand, depth int) {
 		}
 		v.Set(s)
 	case reflect.Map:
-		n := r.Intn(3)
+		n := r.Intn(4) - 1
 		if depth > 3 {
 			n = 0
+		}
+		if n < 0 {
+			v.Set(reflect.Zero(t))
+			return
 		}
 		m := reflect.MakeMap(t)
 		for i := 0; i < n; i++ {
